@@ -266,6 +266,9 @@ def audit(prop: str, thorough: bool = False) -> dict:
                            text=True, timeout=3000)
         res["leanchecker"] = "ok" if p.returncode == 0 else (p.stdout + p.stderr)[-400:]
         if p.returncode != 0:
+            if "does not exist" in res["leanchecker"] or "object file" in res["leanchecker"]:
+                # another build is rewriting a shared .olean right now: infrastructure, not a verdict
+                raise InfraError("leanchecker raced with a concurrent build: " + res["leanchecker"][-200:])
             res["failures"].append("leanchecker failed: " + res["leanchecker"])
     res["ok"] = (not res["failures"]) and res["discharged"] == res["obligations"] and res["obligations"] > 0
     return res
